@@ -153,6 +153,7 @@ class EqualityComparer:
                      == frozenset(expr2.bindings.keys()))
                 and all(self.rec(expr1.bindings[name], expr2.bindings[name])
                         for name in expr1.bindings)
+                and expr1.dtype == expr2.dtype
                 and len(expr1.shape) == len(expr2.shape)
                 and all(self.rec(dim1, dim2)
                         if isinstance(dim1, Array)
